@@ -1016,7 +1016,8 @@ class Engine(Executor):
                 st.ghost["events"] = list(st.ghost.get("events", [])) + [r[0][1]]
         for st in states:
             out.append((st, res))
-        for cls in c.raises:
+        for cls in ([] if self.in_spec else c.raises):
+            # (inside contract text a call denotes its value where it has one: no exceptional outcome is forked)
             sb = s.fork()
             out.append((sb, Exc(cls, self.origin(node), "raised by callee %s (its contract allows it)" % fi.name)))
         if c.assumed:
@@ -1113,9 +1114,17 @@ class Engine(Executor):
                 n = V.map_len(cid)
                 what = kind[5:]
 
-                def el(k, s_, rid=cid, what=what):
+                dhint = d.hint if isinstance(d.hint, tuple) and d.hint and d.hint[0] == "dict" else None
+
+                def el(k, s_, rid=cid, what=what, dhint=dhint):
                     key = V.map_key_at(rid, k)
                     s_.assume(V.map_has(rid, key))
+                    if dhint is not None:
+                        for src_, term_ in ((dhint[1], key), (dhint[2], V.map_get(rid, key))):
+                            c_, _h = self.constraint_of_annotation(ast.parse(src_, mode="eval").body, term_)
+                            if c_ is not None:
+                                s_.assume(c_)
+                        self.assumptions.add("entries of a parameter annotated Dict[%s, %s] have those types" % (dhint[1], dhint[2]))
                     if what == "keys":
                         return Z(key)
                     if what == "values":
@@ -1359,7 +1368,7 @@ class Engine(Executor):
                         ends_iteration = oc is None or oc[0] == "continue"
                         if s2.heap_sig() != sig0:
                             heap_written = True
-                        if ends_iteration or oc[0] == "break":
+                        if ends_iteration or oc[0] in ("break", "return"):
                             # per-iteration post-conditions over what this iteration yielded / which calls it made
                             if body_ens:
                                 env_e = with_iters(s2.env, k)
@@ -1368,6 +1377,7 @@ class Engine(Executor):
                                 env_e["yielded"] = PyTuple([v for (v, _l) in s2.out[n_out0:]])
                                 env_e["events"] = PyTuple(list(s2.ghost.get("events", [])))
                                 env_e["exited"] = Z(V.mk(not ends_iteration), "bool")
+                                env_e["returned"] = oc[1] if (oc is not None and oc[0] == "return" and oc[1] is not None) else Z(V.VNone)
                                 for be in body_ens:
                                     for (s3, b) in self.eval_clause(be, s2.fork(), env_e, stmt):
                                         self.prove(s3, b, "K2", stmt, "iteration post-condition: %s" % be, clause="iter:" + be)
